@@ -43,7 +43,7 @@ def run(job):
     fails = re.findall(r"^\[verif\]\s+(?:e2 )?(\S+)\s+(fail|sat)\b", out, re.M)
     verdict = "caught" if viol else ("inconclusive" if inc else "missed")
     return seed, {"check": "./check %s %s" % (check, " ".join(args)), "verdict": verdict, "violation_lines": len(viol),
-                  "failing_queries": sorted(set(f[0] for f in fails))[:12], "inconclusive": [list(i) for i in inc[:4]], "wall_s": round(time.time() - t0)}
+                  "failing_queries": sorted(set(f[0] for f in fails if "twin" not in f[0]))[:12], "inconclusive": [list(i) for i in inc[:4]], "wall_s": round(time.time() - t0)}
 
 
 def main():
